@@ -179,14 +179,34 @@ BaseSeqs == UNION {[1..n -> 1..NLib] : n \in 1..MaxLines}
 \* the "err" family: an ErrLib line alone, after the valid line `foo ( )`, before the valid line `local u = 1`
 ErrAlone == {<<NLib + e>> : e \in 1..NErr}
 ErrSeqs == IF WithErr THEN ErrAlone \cup {<<1, NLib + e>> : e \in 1..NErr} \cup {<<NLib + e, 2>> : e \in 1..NErr} ELSE {}
+\* the "sw" family (second seeded round): `syntax-error` and `doc-syntax-error` are two codes with two switches.  A
+\* program with BOTH kinds of parse error (a broken doc tag and a broken statement, either order) is analysed with
+\* exactly one of the two codes disabled -- by the configuration (`diagnostics.disable`) or by a top-level
+\* `---@diagnostic disable: <code>` comment in front of the program (file-wide) -- and with neither disabled (control).
+\* The property demands the errors of the OTHER kind as diagnostics ("unless that code is disabled").
+SwDocSet == {<<"---@type", "fun(">>, <<"---@field", "1">>, <<"---@param", ",">>, <<"---@class", "A", ":">>,
+             <<"---@type", "string", "|">>, <<"---@cast", "x">>, <<"---@version", ">">>, <<"---@operator", "add(">>}
+SwSynSet == {<<"local", "a", "=", "-">>, <<"]">>, <<"x", "=", "}">>, <<"local", "s", "=", "<q>abc">>,
+             <<"local", "n", "=", "0x">>, <<"for", "k", "in", "do", "end">>, <<"local", "x", ",", "=", "1">>,
+             <<"return", "return">>}
+IdxOf(S) == {NLib + e : e \in {e \in 1..NErr : ErrLib[e] \in S}}
+SwSeqs == IF WithErr THEN {<<d, y>> : d \in IdxOf(SwDocSet), y \in IdxOf(SwSynSet)}
+                          \cup {<<y, d>> : d \in IdxOf(SwDocSet), y \in IdxOf(SwSynSet)}
+          ELSE {}
+NoSwitch == <<"none", "none">>
+Switches == {NoSwitch} \cup {<<c, h>> : c \in {"syntax-error", "doc-syntax-error"}, h \in {"config", "comment"}}
+\* the kind of parse error whose diagnostics the switch turns off ("syntax" / "doc" as the parser names them)
+SwitchedOff(sw) == CASE sw[1] = "syntax-error" -> <<"syntax">> [] sw[1] = "doc-syntax-error" -> <<"doc">> [] OTHER -> <<>>
 LineSeqs == BaseSeqs \cup ErrSeqs
 Muts(ls) == CASE ls \in BaseSeqs -> {<<"none", 0>>} \cup {<<m, k>> : m \in {"drop", "dup", "trunc"}, k \in 1..NTok(ls)}
               [] ls \in ErrAlone -> {<<"none", 0>>} \cup {<<m, k>> : m \in {"drop", "trunc"}, k \in 1..NTok(ls)}
               [] OTHER -> {<<"none", 0>>}
 
 InitGen == /\ rec = 0
-           /\ \E ls \in LineSeqs : \E nl \in {"LF", "CRLF"} : \E m \in Muts(ls) :
-                prog = [lines |-> ls, nl |-> nl, mut |-> m]
+           /\ \/ \E ls \in LineSeqs : \E nl \in {"LF", "CRLF"} : \E m \in Muts(ls) :
+                prog = [lines |-> ls, nl |-> nl, mut |-> m, sw |-> NoSwitch]
+              \/ \E ls \in SwSeqs : \E nl \in {"LF", "CRLF"} : \E sw \in Switches :
+                prog = [lines |-> ls, nl |-> nl, mut |-> <<"none", 0>>, sw |-> sw]
 InitJudge == prog = <<>> /\ rec \in 1..Len(ndJsonDeserialize(IOEnv.RECS))
 Init == IF Mode = "gen" THEN InitGen ELSE InitJudge
 Next == UNCHANGED vars
@@ -197,7 +217,9 @@ Apply(ts, m) ==
     [] m[1] = "drop" -> SubSeq(ts, 1, m[2] - 1) \o SubSeq(ts, m[2] + 1, Len(ts))
     [] m[1] = "dup" -> SubSeq(ts, 1, m[2]) \o SubSeq(ts, m[2], Len(ts))
     [] m[1] = "trunc" -> SubSeq(ts, 1, m[2])
-Tokens == Apply(Flat(prog.lines), prog.mut)
+\* a switch by comment: the directive is a comment of its own (blank line after it) at the top level of the file
+SwPrefix == IF prog.sw[2] = "comment" THEN <<"---@diagnostic", "disable:", prog.sw[1], "<NL>", "<NL>">> ELSE <<>>
+Tokens == SwPrefix \o Apply(Flat(prog.lines), prog.mut)
 
 RECURSIVE SeqHash(_, _)
 SeqHash(s, i) == IF i > Len(s) THEN 0 ELSE (i + 2) * s[i] + SeqHash(s, i + 1)
@@ -205,9 +227,11 @@ GenHash == SeqHash(prog.lines, 1) * 7 + prog.mut[2] * 3
            + (CASE prog.mut[1] = "none" -> 0 [] prog.mut[1] = "drop" -> 1 [] prog.mut[1] = "dup" -> 2 [] OTHER -> 3)
            + (IF prog.nl = "LF" THEN 0 ELSE 5)
 IsErr == prog.lines \in ErrSeqs
-EmitGen == IF Mode = "gen" /\ (IsErr \/ GenHash % EmitMod = 0)
+IsSw == prog.lines \in SwSeqs
+EmitGen == IF Mode = "gen" /\ (IsErr \/ IsSw \/ GenHash % EmitMod = 0)
            THEN PrintT(<<"PROG", ToJson([toks |-> Tokens, nl |-> prog.nl, lines |-> prog.lines, mut |-> prog.mut,
-                                         fam |-> IF IsErr THEN "err" ELSE "base"])>>)
+                                         fam |-> IF IsSw THEN "sw" ELSE IF IsErr THEN "err" ELSE "base",
+                                         sw |-> prog.sw, off |-> SwitchedOff(prog.sw)])>>)
            ELSE TRUE
 
 \* ---------------------------------------------------------------------------------------------
@@ -216,8 +240,9 @@ EmitGen == IF Mode = "gen" /\ (IsErr \/ GenHash % EmitMod = 0)
 (* record = [id, lens : Seq(Nat)            UTF-16 length of every line of the document (>= 1 line)
              none : BOOLEAN                 diagnose_file returned None
              syn : BOOLEAN                  syntax-error / doc-syntax-error are enabled in this configuration
+             off : Seq({"syntax", "doc"})   kinds of parse error whose code is disabled in this run (both when ~syn)
              diags : Seq(<<sl, sc, el, ec, code, hasSeverity, placeholder, msgid>>)
-             errs : Seq(<<sl, sc, el, ec, msgid>>) the parser's error list at LSP positions; msgid refers to the
+             errs : Seq(<<sl, sc, el, ec, msgid, kind>>) the parser's error list at LSP positions; msgid refers to the
                                             same message table as the diagnostics' msgid]  *)
 KnownCodes == {
   "syntax-error", "doc-syntax-error", "type-not-found", "missing-return", "param-type-mismatch", "missing-parameter",
@@ -249,8 +274,11 @@ Duplicates(r) == {j \in 1..Len(r.diags) : \E i \in 1..(j - 1) : r.diags[i] = r.d
 \* parse errors without a syntax-error diagnostic of their own (same range AND same message: different errors at one
 \* range need different diagnostics; identical errors are one error) -- only demanded when the codes are on
 Covers(d, e) == IsSyntax(d) /\ SubSeq(d, 1, 4) = SubSeq(e, 1, 4) /\ d[8] = e[5]
-Uncovered(r) == IF ~r.syn \/ r.none THEN {}
-                ELSE {k \in 1..Len(r.errs) : ~\E i \in 1..Len(r.diags) : Covers(r.diags[i], r.errs[k])}
+\* "unless that code is disabled": an error is exempt only if the code of ITS kind is off
+IsOff(r, kind) == \E j \in 1..Len(r.off) : r.off[j] = kind
+Uncovered(r) == IF r.none THEN {}
+                ELSE {k \in 1..Len(r.errs) : /\ ~IsOff(r, r.errs[k][6])
+                                              /\ ~\E i \in 1..Len(r.diags) : Covers(r.diags[i], r.errs[k])}
 
 Verdict(r) == [id |-> r.id, range |-> BadRange(r), code |-> UnknownCode(r), severity |-> NoSeverity(r),
                placeholder |-> Placeholder(r), duplicate |-> Duplicates(r), uncovered |-> Uncovered(r)]
